@@ -4,6 +4,7 @@ import (
 	"context"
 	"encoding/hex"
 	"fmt"
+	"io"
 	"math"
 	"os"
 	"os/exec"
@@ -57,6 +58,98 @@ type in struct {
 	Lits  []ctxLit `json:"lits,omitempty"`
 	Z     int64    `json:"z,omitempty"`
 	Rest  string   `json:"rest_hex,omitempty"`
+	At    *place   `json:"at,omitempty"` // the source text is placed: padded in front and delivered piecewise
+}
+
+// place says where the source text of a case stands and how it reaches the scanner: Pad bytes of
+// blanks and line ends in front; Dl > 0: the reader hands over at most Dl bytes per Read (0: as much
+// as asked for, so the scanner's bufio.Reader fills 4096 bytes at a time); Mode 1: the last Read
+// returns its bytes together with io.EOF; Mode 2: every delivery is preceded by a Read that returns
+// (0, nil); Mode 3: the text is written to a file and loaded with LoadFile (Dl unused), and when
+// Pad >= 4 the file starts with a '#' line.
+type place struct {
+	Pad  int `json:"pad"`
+	Dl   int `json:"dl,omitempty"`
+	Mode int `json:"mode,omitempty"`
+}
+
+// cur is the placement of the case being run (nil: the text is loaded as it is, with LoadString).
+var cur *place
+
+func padText(n int, hash bool) string {
+	b := make([]byte, n)
+	for i := range b {
+		b[i] = ' '
+		if i%67 == 66 {
+			b[i] = '\n'
+		}
+	}
+	if hash && n >= 4 { // first line of a file: skipped by LoadFile up to its line feed
+		b[0], b[1], b[2], b[3] = '#', '!', 'x', '\n'
+	}
+	return string(b)
+}
+
+// pieceReader delivers data at most n bytes per Read.
+type pieceReader struct {
+	data  []byte
+	n     int
+	mode  int
+	calls int
+}
+
+func (p *pieceReader) Read(b []byte) (int, error) {
+	p.calls++
+	if len(p.data) == 0 {
+		return 0, io.EOF
+	}
+	if p.mode == 2 && p.calls%2 == 1 {
+		return 0, nil
+	}
+	k := len(p.data)
+	if p.n > 0 && k > p.n {
+		k = p.n
+	}
+	if k > len(b) {
+		k = len(b)
+	}
+	copy(b, p.data[:k])
+	p.data = p.data[k:]
+	if p.mode == 1 && len(p.data) == 0 {
+		return k, io.EOF
+	}
+	return k, nil
+}
+
+// placed returns the reader the scanner gets for the source text src under the current placement.
+func placed(src string) io.Reader {
+	if cur == nil {
+		return strings.NewReader(src)
+	}
+	text := padText(cur.Pad, false) + src
+	if cur.Dl == 0 && cur.Mode == 0 {
+		return strings.NewReader(text)
+	}
+	return &pieceReader{data: []byte(text), n: cur.Dl, mode: cur.Mode}
+}
+
+var tmpFile string
+
+// loadChunk compiles src as a chunk under the current placement.
+func loadChunk(L *lua.LState, src string) (*lua.LFunction, error) {
+	if cur == nil {
+		return L.LoadString(src)
+	}
+	if cur.Mode == 3 {
+		if tmpFile == "" {
+			tmpFile = fmt.Sprintf("%s/c16-chunk-%d.lua", os.TempDir(), os.Getpid())
+		}
+		if err := os.WriteFile(tmpFile, []byte(padText(cur.Pad, true)+src), 0o600); err != nil {
+			panic(err)
+		}
+		return L.LoadFile(tmpFile)
+	}
+	return L.Load(placed(src), "<string>")
 }
 
 var L *lua.LState
@@ -128,7 +221,7 @@ func evalChunk(src string) (res []lua.LValue, errs string, panicked string) {
 	L := state()
 	var fn *lua.LFunction
 	panicked = protect(func() {
-		f, err := L.LoadString(src)
+		f, err := loadChunk(L, src)
 		if err != nil {
 			errs = err.Error()
 			if len(errs) > 200 {
@@ -264,6 +357,8 @@ func runCase(w *lib.Writer, c in, kf ...string) {
 	id := w.NextID()
 	kc := lib.Case{Input: c, Class: c.Kind, KF: kf}
 	s := unhex(c.S)
+	cur = c.At
+	defer func() { cur = nil }()
 	switch c.Kind {
 	case "quote":
 		res, errs, pan := callFn(field("string", "format"), lua.LString("%q"), lua.LString(string(s)))
@@ -302,7 +397,7 @@ func runCase(w *lib.Writer, c in, kf ...string) {
 		var v []byte
 		ok := false
 		pan := protect(func() {
-			sc := parse.NewScanner(strings.NewReader(string(s)), "case")
+			sc := parse.NewScanner(placed(string(s)), "case")
 			tok, err := sc.Scan(&parse.Lexer{})
 			if err == nil && tok.Type == parse.TString {
 				v, ok = []byte(tok.Str), true
@@ -354,7 +449,7 @@ func runCase(w *lib.Writer, c in, kf ...string) {
 		var v []byte
 		ok := false
 		pan := protect(func() {
-			sc := parse.NewScanner(strings.NewReader(string(s)+string(rest)), "case")
+			sc := parse.NewScanner(placed(string(s)+string(rest)), "case")
 			tok, err := sc.Scan(&parse.Lexer{})
 			if err == nil && tok.Type == parse.TNumber {
 				v, ok = []byte(tok.Str), true
@@ -465,25 +560,15 @@ func runCase(w *lib.Writer, c in, kf ...string) {
 		kc.Nontrivial = true
 	case "ctx":
 		// all literals are constants of ONE function; each numeral is observed as v, 1/v, tostring(v)
-		var decl, vars, rets, terms []string
-		for i, l := range c.Lits {
-			v := fmt.Sprintf("v%d", i+1)
-			vars = append(vars, v)
-			src := string(unhex(l.Src))
+		var terms []string
+		for _, l := range c.Lits {
 			if l.Str {
-				decl = append(decl, src)
-				rets = append(rets, v)
 				terms = append(terms, "XStr "+lib.CoqBytes(unhex(l.Src)))
 			} else {
-				if l.Neg {
-					src = "-" + src
-				}
-				decl = append(decl, src)
-				rets = append(rets, v, "1/"+v, "tostring("+v+")")
 				terms = append(terms, fmt.Sprintf("XNum %s %s", lib.CoqBool(l.Neg), lib.CoqBytes(unhex(l.Src))))
 			}
 		}
-		chunk := "local " + strings.Join(vars, ", ") + " = " + strings.Join(decl, ", ") + "\nreturn " + strings.Join(rets, ", ")
+		chunk := ctxChunk(c.Lits)
 		res, errs, pan := evalChunk(chunk)
 		if pan != "" {
 			w.GoFail(id, "Go panic escaped from a several-literal chunk: "+pan)
@@ -548,7 +633,56 @@ func runCase(w *lib.Writer, c in, kf ...string) {
 	default:
 		panic("unknown kind " + c.Kind)
 	}
+	if c.At != nil {
+		kc.Coq = fmt.Sprintf("CAt %d %d %d (%s)", c.At.Pad, c.At.Dl, c.At.Mode, kc.Coq)
+		kc.Class = "at/" + kc.Class
+	}
 	w.Add(kc)
+}
+
+// ctxChunk is the source of a several-literal case.
+func ctxChunk(lits []ctxLit) string {
+	var decl, vars, rets []string
+	for i, l := range lits {
+		v := fmt.Sprintf("v%d", i+1)
+		vars = append(vars, v)
+		src := string(unhex(l.Src))
+		if l.Str {
+			decl = append(decl, src)
+			rets = append(rets, v)
+		} else {
+			if l.Neg {
+				src = "-" + src
+			}
+			decl = append(decl, src)
+			rets = append(rets, v, "1/"+v, "tostring("+v+")")
+		}
+	}
+	return "local " + strings.Join(vars, ", ") + " = " + strings.Join(decl, ", ") + "\nreturn " + strings.Join(rets, ", ")
+}
+
+// srcText is the text the scanner is given for a case of a kind that goes through it ("" for the
+// others and for quote, whose text is the output of string.format).
+func srcText(c in) string {
+	switch c.Kind {
+	case "short":
+		return "return " + string(renderItems(c.Q, c.Items))
+	case "long":
+		return "return " + string(longSrc(c.Lvl, unhex(c.S)))
+	case "lit":
+		return "return " + string(unhex(c.S))
+	case "num":
+		if c.Rd == 2 {
+			return "return " + string(unhex(c.S))
+		}
+	case "scan":
+		return string(unhex(c.S))
+	case "numthen":
+		return string(unhex(c.S)) + string(unhex(c.Rest))
+	case "ctx":
+		return ctxChunk(c.Lits)
+	}
+	return ""
 }
 
 func plainDigits(s []byte) bool {
